@@ -371,6 +371,12 @@ def plan(tier, seed):
 
 def run_shard(cfg):
     rec = Rec(cfg)
+    # configuration dimension: every third shard runs with runtime type checking on (all inputs are well typed,
+    # so nothing may change)
+    from pyoak import config as _config
+
+    _config.RUNTIME_TYPE_CHECK = cfg["k"] % 3 == 2
+    rec.extra["runtime_type_check_in_shard_2_mod_3"] = True
     idx = 0
     for n in range(1, cfg["n"] + 1):
         for d in U.trees(n):
